@@ -89,8 +89,9 @@ type World struct {
 	held     []heldSig
 	// caller-owned options objects that are reused, with rewritten fields,
 	// across the calls of a history
-	optsPool   []*secec.ECDSAOptions
-	verifyOpts secec.ECDSAOptions
+	optsPool       []*secec.ECDSAOptions
+	verifyOpts     secec.ECDSAOptions
+	offerElsewhere bool // a signature is offered to the verifier for another digest before its own
 }
 
 func hx(b []byte) string { return kernel.Hex(b) }
@@ -450,6 +451,8 @@ func Run(run *kernel.Run, prop string) {
 	if !w.buildFixture() {
 		return
 	}
+	w.offerElsewhere = w.t.Chance("cfg", "offer_signature_for_another_digest_first", 1, 3)
+	run.Res.Cfg["offer_elsewhere"] = w.offerElsewhere
 	// swarm: per-run op-mix weights
 	weights := w.opWeights()
 	total := 0
